@@ -28,7 +28,10 @@ Names == [
   ecdsaSigHashes |-> {"sha512", "sha384", "sha256", "sha224", "sha1"},
   dsaSigHashes |-> {"sha512", "sha384", "sha256", "sha224", "sha1"},
   rsaSchemes |-> {"pss", "pkcs1"},
-  psk_modes |-> {"psk_dhe_ke", "psk_ke"} ]
+  psk_modes |-> {"psk_dhe_ke", "psk_ke"},
+  \* RFC 8879 algorithms; what can be used additionally depends on the installed codecs (Consistent)
+  certificate_compression_send |-> {"zlib", "brotli", "zstd"},
+  certificate_compression_receive |-> {"zlib", "brotli", "zstd"} ]
 NameAttrs == DOMAIN Names
 IntRange == [ minKeySize |-> <<512, 16384>>, maxKeySize |-> <<512, 16384>>, ticketLifetime |-> <<1, 604800>>,
               ticket_count |-> <<0, 65535>>, record_size_limit |-> <<64, 16385>> ]
@@ -45,7 +48,8 @@ Default == [minVersion |-> 1, maxVersion |-> 4, minKeySize |-> 1023, maxKeySize 
             dhGroups |-> <<"ffdhe2048", "ffdhe3072", "ffdhe4096", "ffdhe6144", "ffdhe8192">>,
             keyShares |-> <<"secp256r1", "x25519">>,
             rsaSigHashes |-> <<"x">>, ecdsaSigHashes |-> <<"x">>, dsaSigHashes |-> <<"x">>, more_sig_schemes |-> <<"Ed25519", "Ed448">>,
-            cipherNames |-> <<"x">>, cipherImplementations |-> <<"python">>, certificateTypes |-> <<"x509">>]
+            cipherNames |-> <<"x">>, cipherImplementations |-> <<"python">>, certificateTypes |-> <<"x509">>,
+            certificate_compression_send |-> <<"zlib">>, certificate_compression_receive |-> <<"zlib">>]
 
 \* apply edits to the part of the state the rules look at
 RECURSIVE Apply(_, _)
@@ -74,6 +78,10 @@ Consistent(st, available) ==
   \* something usable must remain after removing what the installation lacks
   /\ Range(st.cipherImplementations) \cap available.impls # {}
   /\ (st.cipherNames # <<>> /\ (Range(st.cipherNames) = {"3des"} => available.tdes))
+  \* a certificate compression algorithm can be listed only if this installation can compress (send) /
+  \* decompress (receive) with it
+  /\ Range(st.certificate_compression_send) \subseteq available.compSend
+  /\ Range(st.certificate_compression_receive) \subseteq available.compRecv
 
 \* expected outcome of validate() on the edited object
 Expected(edits, available) ==
